@@ -34,10 +34,12 @@ CONSTS = {
 }
 
 SCHEMAS = {
-    'BytesIO': {'fields': {'content': 'Bytes', 'pos': 'Int'}},
+    # 'owner' (BytesIO) and 'dir' (BundleItem) are ghost fields, written by ghost code only:
+    # the item a buffer belongs to, and the direction of an item (1 = TX, 2 = RX)
+    'BytesIO': {'fields': {'content': 'Bytes', 'pos': 'Int', 'owner': 'Ref[BundleItem]'}},
     'BundleItem': {'pyclass': ('tcpcl.session', 'BundleItem'),
                    'fields': {'transfer_id': 'Opt[Int]', 'total_length': 'Opt[Int]', 'ack_length': 'Int',
-                              'file': 'Opt[Ref[BytesIO]]'}},
+                              'file': 'Opt[Ref[BytesIO]]', 'dir': 'Int'}},
     'Config': {'pyclass': ('tcpcl.config', 'Config'), 'fields': {'enable_test': 'Set[Str]', 'tls_enable': 'Bool', 'require_tls': 'Opt[Bool]',
                           'require_host_authn': 'Bool', 'require_node_authn': 'Bool', 'node_id': 'Str',
                           'keepalive_time': 'Int', 'idle_time': 'Int', 'segment_size_mru': 'Int',
